@@ -15,7 +15,9 @@
 (*   Type / Ann  the artifact type and the value of the one annotation     *)
 (*          (key c10.k) every artifact carries.                            *)
 (*   Filters  the queries of the statement: none, by artifact type, by     *)
-(*          annotation value, by annotation key only ("k").                *)
+(*          annotation value, by annotation key only ("k"), and no filter  *)
+(*          but sorted by the annotation, ascending "sa" / descending "sd" *)
+(*          (the order itself is not part of the property).                *)
 (* Expect(stored, subj, s, f) is THE definition of the property: the       *)
 (* referrers of s under filter f are exactly the stored manifests naming s *)
 (* that match f.                                                           *)
@@ -26,7 +28,7 @@ Arts == {"a1", "a2", "a3"}
 Subj == {"s1", "s2", "a1"}
 Type == [a \in Arts |-> IF a = "a2" THEN "t2" ELSE "t1"]
 Ann  == [a \in Arts |-> IF a = "a1" THEN "x" ELSE "y"]
-Filters == {"none", "t1", "t2", "x", "y", "k"}
+Filters == {"none", "t1", "t2", "x", "y", "k", "sa", "sd"}
 IsTypeFilter(f) == f \in {"t1", "t2"}
 Match(a, f) == CASE f \in {"t1", "t2"} -> Type[a] = f
                  [] f \in {"x", "y"}   -> Ann[a] = f
@@ -45,11 +47,14 @@ SubjOf(sel) == CASE sel = "ror"    -> {[a \in Arts |-> IF a = "a3" THEN "a1" ELS
 \* support only for registries
 \* Spells: how the caller writes the subject reference it lists - "dig" repo@digest, "tag" repo:tag
 \* (only the stored subject s1 has a tag; RegClient.ReferrerList resolves it with a HEAD), "both"
-\* repo:tag@digest
-ConfSpace(Modes, Caches, Pages, TagDels, SubjSel, Spells) ==
-  {c \in {[mode |-> m, cache |-> ch, page |-> g, tagdel |-> t, subj |-> sm, spell |-> sp] :
+\* repo:tag@digest, "plat" the tag of a multi-platform index plus WithReferrerPlatform (s1 only;
+\* RegClient.ReferrerList resolves index and platform first).
+\* Dopts: how the delete learns the subject - "check" WithManifestCheckReferrers (the scheme fetches
+\* the manifest), "man" the caller hands the manifest over (WithManifest: no fetch)
+ConfSpace(Modes, Caches, Pages, TagDels, SubjSel, Spells, Dopts) ==
+  {c \in {[mode |-> m, cache |-> ch, page |-> g, tagdel |-> t, subj |-> sm, spell |-> sp, dopt |-> dp] :
              m \in Modes, ch \in Caches, g \in Pages, t \in TagDels, sm \in UNION {SubjOf(x) : x \in SubjSel},
-             sp \in Spells} :
+             sp \in Spells, dp \in Dopts} :
      /\ (c.mode # "api" => c.page = 0)
      /\ (c.mode = "oci" => c.cache = 0 /\ c.tagdel = 1)
      /\ (c.mode = "api" => c.tagdel = 1)}
